@@ -445,6 +445,19 @@ class LaneInterp:
                     n = self.lin(l.args[1])
                     if n is not None:
                         return ones(0, n)
+            if isinstance(op, ast.Sub):
+                # (1 << a) - (1 << b) with b <= a under the facts: the ones
+                # in [b, a)
+                def pow2(x):
+                    if isinstance(x, ast.BinOp) and isinstance(
+                            x.op, ast.LShift) and isinstance(
+                                x.left, ast.Constant) and x.left.value == 1:
+                        return self.lin(x.right)
+                    return None
+                a_, b_ = pow2(e.left), pow2(e.right)
+                if a_ is not None and b_ is not None and self.alg.f.le(
+                        b_, a_):
+                    return ones(b_, a_)
             if isinstance(op, ast.BitAnd):
                 return self.alg.and_mask(self.bv(e.left), self.bv(e.right))
             if isinstance(op, ast.BitOr):
